@@ -833,7 +833,9 @@ impl Paragraph {
 
     /// Remove the given field from the paragraph.
     pub fn remove(&mut self, key: &str) {
-        for mut entry in self.entries() {
+        // Collect first: detaching a node ends the sibling iteration
+        let entries = self.entries().collect::<Vec<_>>();
+        for mut entry in entries {
             if entry.key().as_deref() == Some(key) {
                 entry.detach();
             }
